@@ -49,7 +49,7 @@ CHECK_DEADLOCK FALSE
 
 INVS = {'read': ['NoBadResult', 'ReadTypeOK', 'NoEosWithData'], 'flush': ['FlushResultOK'], 'accept': ['AcceptResultOK'],
         'send': ['SendResultOK'], 'init': ['InitResultOK']}
-LIVE = {'read': ['ReadReturns'], 'flush': ['FlushReturns'], 'accept': ['AcceptReturns'], 'send': ['SendReturns', 'WakeReturns'], 'init': ['InitReturns']}
+LIVE = {'read': ['ReadReturns', 'ReadReturnsAnyClose'], 'flush': ['FlushReturns'], 'accept': ['AcceptReturns'], 'send': ['SendReturns', 'WakeReturns'], 'init': ['InitReturns']}
 
 
 def tlaset(xs):
@@ -92,7 +92,7 @@ ALLEV = ['arr', 'half', 'close', 'sess']
 # callback mode: the reader is the callback goroutine, blocked in ReadBytes(2) inside OnData after a 1-byte message
 CB7 = rcfg(7, [0], [1], 2, ALLEV, 0, [0], cb=True)
 CB8 = rcfg(8, [1], [1], 1, ['arr', 'half'], 1, [0], cb=True)       # ... with a read deadline
-CB_SLUG = 'callback-close-leaves-reader-blocked'
+CB_SLUG = 'callback-close-leaves-reader-blocked'      # fixed by 0f276d8; the must-replays cb-blocked-local-close* are its regression
 
 
 def configs(tier):
@@ -312,9 +312,8 @@ MUST = [
     ('cb-blocked-more-data', 'read', 7, CBPRE + ['ArrBegin(1)', 'ArrAdd', 'ArrNotify', 'R_selTok', 'R_m1', 'R_m2'], (2, 6)),
     ('cb-blocked-session-close', 'read', 7, CBPRE + ['SessNotify', 'R_selCls', 'R_c1', 'R_c2', 'R_c3'], (2, 6)),
     ('cb-blocked-deadline', 'read', 8, CBPRE + ['RTick', 'TimerFire', 'R_selTmr'], (1, 3)),
-    # ... a local Close from another goroutine is only deferred in callback mode (lead of finding CB_SLUG)
-    ('cb-blocked-local-close', 'read', 7, CBPRE + ['CloseCb'], (2, 4)),
-    ('cb-blocked-local-close-then-peer-close', 'read', 7, CBPRE + ['CloseCb', 'HalfClose'], (1, 2)),
+    # ... a local Close from another goroutine is only deferred in callback mode, but must release the read (regression of CB_SLUG)
+    ('cb-blocked-local-close', 'read', 7, CBPRE + ['CloseCb', 'R_selCls', 'R_c1', 'R_c2', 'R_c3'], (3, 6)),
     # the queue stays full and nothing else happens: Flush gives up after attempt 0 + 10 retries
     ('flush-queue-stays-full', 'flush', 1, ['FStart'] + ['FAttempt', 'FWaitTimer'] * 10 + ['FAttempt'], (1, 1)),
     # the send loop is stuck in a blocked write: waitForSend times out waiting for the result / for room in sendCh
@@ -507,36 +506,13 @@ def run(prop, tier, seed, replay=None):
         warm.result()
     except Exception:
         pass
-    known_cb = ('C11', CB_SLUG) in known
-    for sc in allsched:
-        sc['known_cb'] = known_cb
-    # lead: what the property asks for (a close by either end releases the reader) on the callback-mode configuration
-    lead = ex.submit(run_cb_lead)
     job = {'schedules': allsched, 'bound_ms': 10000, 'tick_ms': 150}
     g = gorun.run_harness('^TestVS_Blocking$', HARNESS, INSTR, inputs={'job': job}, timeout=2400)
     if g.result is None:
         ck.inconc('harness produced no result (rc=%d): %s' % (g.rc, g.out[-2500:]))
         return ck.finish()
-    lcfg, lres = lead.result()
-    if 'Temporal property ReadReturnsAnyClose was violated' in lres.out or lres.violation == 'temporal':
-        trace = tlc.parse_error_trace(lres.out)
-        ck.cov['callback_close_lead'] = ('TLC refutes ReadReturnsAnyClose for the callback-mode configuration (%d-state counterexample, '
-                                         '%d distinct states, %.0fs): %s' % (len(trace), lres.distinct, lres.wall,
-                                                                           ' '.join(label(l)[0] for (l, _s) in trace[1:])))
-        ck.add('states', lres.distinct)
-        ck.add('transitions', lres.generated)
-    elif lres.ok:
-        ck.cov['callback_close_lead'] = 'TLC proves ReadReturnsAnyClose for the callback-mode configuration (%d states)' % lres.distinct
-    else:
-        ck.notes.append('the TLC run for ReadReturnsAnyClose did not complete: %s' % (lres.error or lres.out[-300:]))
     handle(ck, g.result, bygraph, known)
     return ck.finish()
-
-
-def run_cb_lead():
-    cfg = mkrun('cblead', ['read'], [CB7], [], props=['ReadReturnsAnyClose'], invs=[])
-    res = tlc.run(cfg['module'], cfg['cfg'], workers=2, timeout=900, extra_files=cfg['files'], tlc_args=['-lncheck', 'final'])
-    return cfg, res
 
 
 def handle(ck, r, bygraph, known):
@@ -581,13 +557,6 @@ def handle(ck, r, bygraph, known):
         ck.notes.append('%d recorded runs are not behaviours of the specification (first: %s)' % (len(drift), drift[0]))
     ck.cov['wake_slow_path_stuck_runs'] = r.get('wake_stuck', 0)
     ck.cov['callback_local_close_reader_left_blocked_runs'] = r.get('cb_close_blocked', 0)
-    if r.get('cb_close_blocked'):
-        if ('C11', CB_SLUG) in known:
-            ck.known(CB_SLUG, '%s [reproduced on the real code in %d staged runs: %s]' % (
-                known[('C11', CB_SLUG)][:200], r['cb_close_blocked'], r['cb_close_witness'][:700]))
-            ck.cov['known_finding_class_executions_pruned'] = r['cb_close_blocked']
-    elif ('C11', CB_SLUG) in known:
-        ck.notes.append('the listed finding %s did not reproduce in this run' % CB_SLUG)
     if r.get('eos_with_data'):
         ck.notes.append('observation outside C11 (lead for C07): ReadBytes returned end-of-stream although enough bytes had been '
                         'delivered, %d runs; e.g. %s' % (r['eos_with_data'], r['eos_witness']))
